@@ -43,11 +43,56 @@ DEFAULT_DIRS = ['/nonexistent-mverif/include', '/nonexistent-mverif/sys']
 
 # ------------------------------------------------------------------ implementation side
 
+KNOWN_NAMES = {'CompilerArgs': 'base', 'CLikeCompilerArgs': 'clike', 'DCompilerArgs': 'd'}
+_CLASSES: T.Dict[str, T.Any] = {}
+
+
 def classes():
+    """`CompilerArgs` and every subclass that exists in the tree, found reflectively after importing all
+    of `mesonbuild.compilers` and `mesonbuild.linkers`; the three known ones keep their short names"""
+    if _CLASSES:
+        return _CLASSES
+    import importlib
+    import pkgutil
+    import re as _re
     from mesonbuild import arglist
-    from mesonbuild.compilers.mixins import clike
-    from mesonbuild.compilers import d
-    return {'base': arglist.CompilerArgs, 'clike': clike.CLikeCompilerArgs, 'd': d.DCompilerArgs}
+    import mesonbuild.compilers
+    import mesonbuild.linkers
+    for pkg in (mesonbuild.compilers, mesonbuild.linkers):
+        for m in pkgutil.walk_packages(pkg.__path__, pkg.__name__ + '.'):
+            try:
+                importlib.import_module(m.name)
+            except Exception:      # a module that cannot be imported here defines no class we could run
+                pass
+    found = [arglist.CompilerArgs]
+    todo = [arglist.CompilerArgs]
+    while todo:
+        c = todo.pop()
+        for sub in c.__subclasses__():
+            if sub not in found and sub.__module__.startswith('mesonbuild.'):
+                found.append(sub)
+                todo.append(sub)
+    out: T.Dict[str, T.Any] = {}
+    for c in sorted(found, key=lambda c: (c.__name__ not in KNOWN_NAMES, c.__module__, c.__name__)):
+        name = KNOWN_NAMES.get(c.__name__) or _re.sub(r'[^a-z0-9]', '', c.__name__.lower())
+        while name in out:
+            name += 'x'
+        out[name] = c
+    for need in ('base', 'clike', 'd'):
+        if need not in out:
+            raise LookupError(f'class for {need!r} not found')
+    _CLASSES.update(out)
+    return _CLASSES
+
+
+def native_kind(cls) -> str:
+    """which `to_native` the class uses: 'plain' (CompilerArgs), 'clike' (CLikeCompilerArgs) or 'unknown'"""
+    cl = classes()
+    if cls.to_native is cl['base'].to_native:
+        return 'plain'
+    if cls.to_native is cl['clike'].to_native:
+        return 'clike'
+    return 'unknown'
 
 
 _STUBS: T.Dict[T.Tuple[bool, bool], T.Any] = {}
@@ -111,13 +156,21 @@ def gen_tables(ctx: Ctx) -> None:
     cl = classes()
     lines = ['/- GENERATED by harness/c13.py gen_tables from the live Python classes; do not edit. -/',
              'import MesonModel.ArgList.Model', '', 'namespace MesonModel.Generated', 'open MesonModel.ArgList', '']
-    for name in ('base', 'clike', 'd'):
+    for name in cl:
         t = tables_of(cl[name])
         lines.append(f'/-- `{cl[name].__module__}.{cl[name].__name__}` -/')
         lines.append(f'def {name}Tables : Tables where')
         for lean_name, _ in TABLE_FIELDS:
             lines.append(f'  {lean_name} := [' + ', '.join(_lean_str(s) for s in t[lean_name]) + ']')
         lines.append('')
+    lines.append('/-- every class found reflectively: name, uses the C-like `to_native`, tables -/')
+    lines.append('def allTables : List (String × Bool × Tables) := [' + ', '.join(
+        f'("{n}", {"true" if native_kind(c) == "clike" else "false"}, {n}Tables)' for n, c in cl.items()) + ']')
+    lines.append('')
+    for n, c in cl.items():
+        if native_kind(c) == 'unknown':
+            ctx.notes.append(f'{n}: to_native is overridden by a method the model does not mirror; to_native is not compared for it')
+    ctx.notes.append('classes found: ' + ', '.join(f'{n}={c.__module__}.{c.__name__}' for n, c in cl.items()))
     from mesonbuild import arglist
     from mesonbuild.compilers.mixins import clike
     lines.append('/-- advisory pins (pattern strings are not proof obligations) -/')
@@ -436,7 +489,7 @@ def ref_append_direct(kind, L, a):
 
 
 def ref_native(cname: str, gnu: bool, dirs: bool, L: T.List[str]) -> T.List[str]:
-    if cname != 'clike':
+    if native_kind(classes()[cname]) != 'clike':
         return list(L)
     from mesonbuild.compilers.mixins import clike
     out = list(L)
@@ -830,6 +883,12 @@ class Case(T.NamedTuple):
 
 
 def check_case(ctx: Ctx, cl, case: Case, with_oracle: bool = True) -> T.Tuple[str, str, bool]:
+    if native_kind(cl[case.cname]) == 'unknown':   # a to_native the model does not mirror: leave it out
+        case = case._replace(script=[op for op in case.script if not (op[0] == 'on' and op[2] == 'nat')])
+    return _check_case(ctx, cl, case, with_oracle)
+
+
+def _check_case(ctx: Ctx, cl, case: Case, with_oracle: bool = True) -> T.Tuple[str, str, bool]:
     """run the real classes on one script: lazy run (with the eager-reference oracle watching) and a run that
     flushes after every operation; returns (protocol line, implementation answer, nontrivial)"""
     cls = cl[case.cname]
@@ -925,7 +984,7 @@ def run(ctx: Ctx) -> None:
         for k, sc in enumerate(ex3):
             yield Case(('clike', 'd', 'base')[k % 3], False, False, sc, 'exhaustive3')
         for _ in range(ctx.scale(25000, 200000)):
-            cname = rng.choice(['clike', 'clike', 'clike', 'd', 'base'])
+            cname = rng.choice(['clike', 'clike', 'clike', 'd', 'base'] + [c for c in cl if c not in ('clike', 'd', 'base')] * 2)
             alpha = alphas[cname] if rng.random() < 0.6 else ALPHA_SMALL
             yield Case(cname, rng.random() < 0.6, rng.random() < 0.4, rand_script(rng, alpha), 'random')
 
